@@ -439,6 +439,7 @@ func (f *fnTrans) applyCall(ins ssa.Instruction, name string, ct *Contract, sig 
 			f.noteAssumed("trusted contract: " + strings.TrimSuffix(cs.name, "[leaf]"))
 		}
 	}
+	f.historyFacts(mods, pre)
 	// Type invariants hold of every finished object at every call boundary: after the callee
 	// returns they hold again of the objects this function received and of the objects it
 	// handed to the callee complete (the callee owes them; see the typeinv obligations).
